@@ -105,7 +105,8 @@ CHECKS["C07"] = dict(
 CHECKS["C06"] = dict(
     technique="TLA+ definitions of the three reports over a per-line attribution (Reports.tla on top of PreprocCore and "
               "Metrics); TLC checks the report identities on generated scenarios and prints the expected summary table, "
-              "tree rows and coverage partition; scenarios replayed through the three CLIs and parsed back",
+              "tree rows and coverage partition; scenarios replayed through the three CLIs and parsed back; hook traces of the "
+              "`codebasin` front end (fresh interpreter) validated by Trace_Preproc.tla",
     text="For every TLC-simulated scenario Reports.tla states what the summary table, every tree row (unpruned, pruned, "
          "depth-limited) and the coverage export must show, and TLC checks the identities (rows partition the lines, "
          "directory = sum of children, root = summary, prune drops exactly unused files, used/unused partition) on that "
